@@ -299,7 +299,7 @@ impl Monitor for C16 {
          apply callback logs every batch. Oracle: reference interpreter in topological order on the plain model; log must contain each hyperedge exactly once with the \
          reference input values and after everything it depends on; renumbered copy gives the same output; None iff the dependency relation is cyclic. Acyclic diagrams with \
          a node written twice are counted but not judged; values read from unwritten nodes are not judged. non-trivial = judged circuit with operations at >=2 depths; \
-         distinct = hash of (diagram, inputs)."
+         distinct = hash of (diagram, inputs). Also: circuits with 17-48 operations ready at once, chains of 200-500 operations (a third of them closed into a cycle), the same circuits evaluated over String values, and the event log of the renumbered run."
     }
     fn corpus_len(&self) -> u64 {
         corpus().len() as u64
